@@ -20,7 +20,7 @@ class RandomBehaviour:
     schedule (needed for C04; harmless elsewhere)."""
 
     def __init__(self, seed, tb_next=(1, 2, 3), ev_next=(None, None, 1, 2), p_event=0.6, p_future=0.2,
-                 future=(0, 1, 2), sparse_pers=False, p_none=0.0, recur=0, p_extra=0.0, jump=0, p_time_echo=0.0):
+                 future=(0, 1, 2), sparse_pers=False, p_none=0.0, recur=0, p_extra=0.0, jump=0, p_time_echo=0.0, future_pers=False):
         self.seed = seed
         self.tb_next = tb_next
         self.ev_next = ev_next
@@ -28,6 +28,7 @@ class RandomBehaviour:
         self.p_future = p_future
         self.future = future
         self.sparse_pers = sparse_pers
+        self.future_pers = future_pers  # replies with persistent attributes may be dated into the future as well
         self.jump = jump  # > 0: every simulator's FIRST step returns time + jump as its next step (the rest of the run happens at large times)
         self.p_time_echo = p_time_echo  # probability that a get_data reply carries 'time' = the step time (as a fresh int object)
         self.p_extra = p_extra  # probability that a get_data reply also contains an attribute / an entity nobody asked for
@@ -70,7 +71,13 @@ class RandomBehaviour:
                         # None and other falsy or structured values are legal VALUES, not "no output"
                         d[a] = rn.choice([None, None, 0, "", False, [d[a]], {"v": d[a]}])
             data[eid] = d
-        if typ != "time-based" and not any_pers and r.random() < self.p_future:
+        if typ != "time-based" and any_pers and self.future_pers:
+            # persistent values dated into the future by a CONSTANT offset per simulator (output times stay in production order:
+            # which of two values is "the most recent" when a later step dates its output earlier is left open by the property)
+            c = self.rng(p.sid, "fp", 0).choice(self.future)
+            if c:
+                data["time"] = t + c
+        elif typ != "time-based" and not any_pers and r.random() < self.p_future:
             data["time"] = t + r.choice(self.future)
         if self.p_time_echo and "time" not in data and self.rng(p.sid, "echo", p.k).random() < self.p_time_echo:
             data["time"] = int(str(t))  # the optional output time, equal to the step time (legal; an equal but distinct int object)
@@ -241,7 +248,11 @@ class FaultyBehaviour(RandomBehaviour):
         else:
             data = rep.value
             data.pop("time", None)
-            data["time"] = t + arg if kind == "time_rel" else arg
+            if kind == "time_only_rel":
+                data.clear()  # a reply that consists of the (too early) output time alone
+                data["time"] = t + arg
+            else:
+                data["time"] = t + arg if kind == "time_rel" else arg
         return rep
 
 
@@ -416,7 +427,11 @@ class FaultyRTBehaviour(RTBehaviour):
         else:
             data = rep.value
             data.pop("time", None)
-            data["time"] = t + arg if kind == "time_rel" else arg
+            if kind == "time_only_rel":
+                data.clear()
+                data["time"] = t + arg
+            else:
+                data["time"] = t + arg if kind == "time_rel" else arg
         return rep
 
 
